@@ -110,7 +110,7 @@ def table_cases(draw):
     segs = []
     for k in range(d.int(0, 5)):
         s = d.choice([0, 0, 2, 4, 2 * d.int(0, 30), d.int(0, 60), 1 << 14, U64 - 2, U64 - 4, 1 << 63, d.choice(FIELD_VALUES)])
-        l = d.choice([2, 2, 4, 6, 2 * d.int(0, 20), d.int(0, 40), 1000, 1002, 1 << 20, 1 << 40, U64 - 1, d.choice(FIELD_VALUES)])
+        l = d.choice([2, 2, 4, 6, 0, 1, 2 * d.int(0, 20), d.int(0, 40), 1000, 1002, 1 << 20, 1 << 40, U64 - 1, d.choice(FIELD_VALUES)])
         ds = d.choice([0, 0, 2, d.int(0, n + 2), d.choice(FIELD_VALUES)])
         dl = d.choice([0, 2, 2, 4, n, d.int(0, n + 3), l if l < 64 else 2, d.choice(FIELD_VALUES)])
         if segs and d.pct() < 35:
@@ -123,7 +123,10 @@ def table_cases(draw):
                 # ... or the earlier entry grows by one word into this one
                 segs[-1][1] = (s - segs[-1][0] + 1) & (U64 - 1) if s > segs[-1][0] else segs[-1][1]
         segs.append([s & (U64 - 1), l & (U64 - 1), ds & (U64 - 1), dl & (U64 - 1)])
-    if segs and d.pct() < 50:
+    if segs and d.pct() < 6:
+        # a first segment too short to hold the first op (execution starts at address 0: not a runnable program)
+        segs[0] = [0, d.choice([0, 1, 1]), segs[0][2], 0]
+    elif segs and d.pct() < 50:
         # make it runnable: a first op that touches a drawn word, then a self loop
         w_ = w
         tgt = d.choice([x[0] + d.int(0, max(0, min(x[1], 1200) - 1)) for x in segs] + [d.int(0, 1500)])
